@@ -6,7 +6,7 @@
 use crate::{conserve, preds};
 use cgt_core::{Config, Currency, CurrencyAmount, Operation, TaxReport, Transaction};
 use cgt_money::FxCache;
-use chrono::{Duration, NaiveDate};
+use chrono::{Datelike, Duration, NaiveDate};
 use mcx::alpha::{self, Alphabet, Class, class_of, dsl_text};
 use mcx::fxref::{self, RateTable};
 use mcx::observe::{self, Diff, Outcome, all_years_config, run_calc};
@@ -566,9 +566,11 @@ fn oracle_c11(env: &Env, txs: &[Transaction], acc: &mut Acc) -> Vec<Obs> {
                     continue;
                 }
                 // the return must be absorbable under every reading: skip when the pool lower bound is below it
-                for order in [0, 1] {
+                for (order, large) in [(0, false), (1, false), (0, true), (1, true)] {
                     let mut l2 = txs.to_vec();
-                    let (x, y) = (alpha::accum(d, &tk, "1", "4", "0"), alpha::capret(d, &tk, "1", "5", "1"));
+                    // small pair: absorbable by most pools on its own; large pair: far above any expenditure of the
+                    // alphabets, so the return fits only because the same-date accumulation offsets it
+                    let (x, y) = if large { (alpha::accum(d, &tk, "1", "5000", "0"), alpha::capret(d, &tk, "1", "5001", "1")) } else { (alpha::accum(d, &tk, "1", "4", "0"), alpha::capret(d, &tk, "1", "5", "1")) };
                     if order == 0 {
                         l2.push(x);
                         l2.push(y);
@@ -580,7 +582,7 @@ fn oracle_c11(env: &Env, txs: &[Transaction], acc: &mut Acc) -> Vec<Obs> {
                     let o2 = env.calc(&l2);
                     acc.bump("cancelling-pair-inserted");
                     acc.validated += 1;
-                    let ctx = json!({"variant": "ACCUMULATION 4 + CAPRETURN 5 FEES 1 on one date", "ledger_with_pair": dsl_text(&l2)});
+                    let ctx = json!({"variant": if large { "ACCUMULATION 5000 + CAPRETURN 5001 FEES 1 on one date" } else { "ACCUMULATION 4 + CAPRETURN 5 FEES 1 on one date" }, "ledger_with_pair": dsl_text(&l2)});
                     match &o2 {
                         Outcome::Report(b2) => {
                             let dd = view::diff_reports(&view::view(b2), &view::view(a), Level::L3, &CmpOpts { label_a: "with-pair", label_b: "original", ..Default::default() });
@@ -591,7 +593,12 @@ fn oracle_c11(env: &Env, txs: &[Transaction], acc: &mut Acc) -> Vec<Obs> {
                             let pool_cost = pool_cost_at(&r, &tk, d);
                             let earlier_returns: Rat = txs.iter().filter(|t| t.ticker == tk && t.date < d && matches!(t.operation, Operation::CapReturn { .. })).map(|t| -net_of(&t.operation, t.date, env)).sum();
                             let has_bnb = r.disposals.iter().any(|d| d.ticker == tk && d.legs.iter().any(|l| l.rule == Rule::Bnb));
-                            if pool_cost - earlier_returns >= Rat::int(4) && !has_bnb && readings_agree(txs, &tk, d) {
+                            // (the large pair is absorbable under every reading when nothing was sold before it: the tool
+                            // spreads a lot's adjustment over the lot's original quantity — pinned by its golden files,
+                            // DESIGN §12.2 "not checked, by decision" — so after a sale part of the accumulation sits on
+                            // shares no longer held and "the expenditure remaining on the shares held" is reading-dependent)
+                            let sold_before = txs.iter().any(|t| t.ticker == tk && t.date < d && matches!(t.operation, Operation::Sell { .. }));
+                            if (large && !sold_before) || (!large && pool_cost - earlier_returns >= Rat::int(4) && !has_bnb && readings_agree(txs, &tk, d)) {
                                 res.extend(with_ctx(vec![ob("equal-accumulation-and-return-do-not-cancel", format!("inserting the cancelling pair makes the run fail: {msg}"))], ctx, None));
                             }
                         }
@@ -740,8 +747,23 @@ fn oracle_c09(env: &Env, txs: &[Transaction], acc: &mut Acc) -> Vec<Obs> {
 // ---------------------------------------------------------------------------------------------- C12
 fn suffix_events(tk: &str, t: NaiveDate) -> Vec<Transaction> {
     let mut v = vec![];
-    for (i, o) in [31i64, 32, 45].iter().enumerate() {
-        let d = t + Duration::days(*o);
+    // T+31, T+32, T+45, and the two sides of the next tax-year boundary that lies more than 30 days after T
+    let mut dates: Vec<NaiveDate> = [31i64, 32, 45].iter().map(|o| t + Duration::days(*o)).collect();
+    let first = t + Duration::days(31);
+    let mut y = first.year();
+    let (apr5, apr6) = loop {
+        let a5 = alpha::date(y, 4, 5);
+        if a5 >= first {
+            break (a5, alpha::date(y, 4, 6));
+        }
+        y += 1;
+    };
+    for d in [apr5, apr6] {
+        if !dates.contains(&d) {
+            dates.push(d);
+        }
+    }
+    for (i, d) in dates.into_iter().enumerate() {
         v.push(alpha::buy(d, tk, "7", &format!("{}", 30 + i), "1"));
         v.push(alpha::sell(d, tk, "3", &format!("{}", 40 + i), "0.5"));
         v.push(alpha::sell(d, tk, "99", &format!("{}", 41 + i), "0"));
@@ -803,7 +825,12 @@ fn oracle_c12(env: &Env, prefix: &[Transaction], acc: &mut Acc, max_suffix: usiz
                 // year totals of years whose disposals are all the prefix's
                 for py in &vp.years {
                     if let Some(fy) = vf.years.iter().find(|y| y.year == py.year) {
-                        if fy.disposals.len() == py.disposals.len() && (!fy.gain.close(&py.gain) || !fy.loss.close(&py.loss) || !fy.net.close(&py.net)) {
+                        // a year into which no appended sale falls (6-April rule, computed here from the dates) is final
+                        let gains_sale = suffix.iter().any(|t| matches!(t.operation, Operation::Sell { .. }) && mcx::refmodel::tax_year_of(t.date) == py.year);
+                        if !gains_sale && fy.disposals.len() != py.disposals.len() {
+                            dd.push(Diff { clause: "earlier-year-totals-changed", detail: format!("tax year {} lists {} disposals instead of {} although no appended sale is dated in it", py.year, fy.disposals.len(), py.disposals.len()) });
+                        }
+                        if (!gains_sale || fy.disposals.len() == py.disposals.len()) && (!fy.gain.close(&py.gain) || !fy.loss.close(&py.loss) || !fy.net.close(&py.net)) {
                             dd.push(Diff { clause: "earlier-year-totals-changed", detail: format!("tax year {} totals change from {}/{} to {}/{}", py.year, py.gain, py.loss, fy.gain, fy.loss) });
                         }
                     } else {
@@ -1123,6 +1150,8 @@ pub fn c10(tier: Tier) -> i32 {
     };
     explore_alpha("C10", &mut ctx, &env, &profiles::events(&["2", "2.5"]), n_ev, &mut acc);
     explore_alpha("C10", &mut ctx, &env, &profiles::match1(&["2", "4"], true), n_m, &mut acc);
+    // a split of one security inside the 30-day window of another
+    explore_alpha("C10", &mut ctx, &env, &profiles::two_sec(), n_m, &mut acc);
     ctx.require(acc.get("twin-both-accepted") > 0, "no accepted twin pair");
     ctx.require(acc.get("split-unsplit-pair-inserted") > 0, "no pair insertion");
     ctx.bound = json!({"events_max_events": n_ev, "match1_reduced_max_events": n_m});
@@ -1142,6 +1171,7 @@ pub fn c11(tier: Tier) -> i32 {
     explore_alpha("C11", &mut ctx, &env, &profiles::events(&["2"]), n_ev, &mut acc);
     explore_alpha("C11", &mut ctx, &env, &profiles::two_sec(), n_two, &mut acc);
     explore_alpha("C11", &mut ctx, &env, &profiles::events_reduced(), n_ev + 2, &mut acc);
+    explore_alpha("C11", &mut ctx, &env, &profiles::events_two_adj(), n_ev + 2, &mut acc);
     for k in ["adjustment-differential(position>0)", "adjustment-before-any-acquisition", "dividend-differential", "cancelling-pair-inserted", "bracket:return-absorbable", "bracket:return-exceeds-all-expenditure"] {
         ctx.require(acc.get(k) > 0, &format!("no state exhibited {k}"));
     }
